@@ -440,3 +440,61 @@ package syntax
 //@   trusted replacement parser (scanReplacement, scanDollar) and rule encoding are not verified; the contract only says that a result is returned exactly when there is no error
 //@   ensures (err == nil) == (d != nil)
 //@   ensures d != nil ==> ReplFor(d, rep)
+
+// ---------------------------------------------------------------------------------------------
+// C10: cursor discipline of the replacement-pattern scanner (parser.go): every read of p.pattern is inside the
+// pattern, whatever the replacement string is. Functional content (which node is produced) is not claimed.
+// ---------------------------------------------------------------------------------------------
+//@ func (p *parser) getErr(code ErrorCode, args ...interface{}) (err error)
+//@   trusted allocates the error value (variadic interface arguments are outside the modelled subset)
+//@   pure
+//@   ensures err != nil
+
+//@ func (p *parser) scanDecimal() (n int, err error)
+//@   props C10
+//@   overflow
+//@   requires CursorOK(p)
+//@   modifies p.currentPos
+//@   ensures CursorOK(p) && old(p.currentPos) <= p.currentPos && 0 <= n && n <= 2147483647
+//@   loop 0:
+//@     invariant CursorOK(p) && old(p.currentPos) <= p.currentPos && 0 <= i && i <= 2147483647 && p.pattern == old(p.pattern)
+//@     decreases len(p.pattern) - p.currentPos
+
+//@ func (p *parser) scanWord() (s string)
+//@   props C10
+//@   requires CursorOK(p)
+//@   modifies p.currentPos
+//@   ensures CursorOK(p) && old(p.currentPos) <= p.currentPos
+//@   loop 0:
+//@     invariant CursorOK(p) && old(p.currentPos) <= p.currentPos && p.pattern == old(p.pattern)
+//@     decreases len(p.pattern) - p.currentPos
+
+//@ func (p *parser) scanECMACapname() (s string, err error)
+//@   trusted builds the name with strings.Builder (outside the modelled subset); assumed to keep the cursor inside the pattern
+//@   requires CursorOK(p)
+//@   modifies p.currentPos
+//@   ensures CursorOK(p)
+
+//@ func (p *parser) scanCapname() (s string, err error)
+//@   props C10
+//@   requires CursorOK(p)
+//@   modifies p.currentPos
+//@   ensures CursorOK(p)
+
+//@ func newRegexNodeCh(t NodeType, opt RegexOptions, ch rune) (n *RegexNode)
+//@   trusted node constructor; under IgnoreCase it builds a case-closed class through addCaseEquivalences, which is not under contract
+//@   ensures n != nil
+//@ func newRegexNodeM(t NodeType, opt RegexOptions, m int) (n *RegexNode)
+//@   props C10
+//@   ensures n != nil
+
+//@ func (p *parser) scanDollar() (n *RegexNode, err error)
+//@   props C10 C09
+//@   overflow
+//@   requires CursorOK(p)
+//@   modifies p.currentPos
+//@   ensures CursorOK(p)
+//@   ensures[result] err == nil ==> n != nil
+//@   loop 0:
+//@     invariant CursorOK(p) && p.pattern == old(p.pattern) && 0 <= newcapnum && newcapnum <= 2147483647 && 0 <= lastEndPos && lastEndPos <= len(p.pattern) && 0 <= backpos && backpos <= len(p.pattern)
+//@     decreases len(p.pattern) - p.currentPos
